@@ -277,6 +277,13 @@ func (m *minimiser) fails(plan any) bool {
 	os.WriteFile(f, b, 0o644)
 	defer os.Remove(f)
 	c := runChild(m.bin, m.prop, m.seed, f, m.tier, m.mode, m.wall, m.maxprocs, m.tmp)
+	if c.exit == 2 {
+		if d := os.Getenv("VERIF_KEEP_TROUBLE"); d != "" {
+			os.MkdirAll(d, 0o755)
+			os.WriteFile(filepath.Join(d, fmt.Sprintf("%s-%d.json", m.prop, time.Now().UnixNano())), b, 0o644)
+			os.WriteFile(filepath.Join(d, fmt.Sprintf("%s-%d.err", m.prop, time.Now().UnixNano())), []byte(c.err), 0o644)
+		}
+	}
 	if c.res == nil || c.exit != 1 {
 		return false
 	}
@@ -520,7 +527,11 @@ func check(prop, tier string, runsOverride int) int {
 		reported++
 		rf := replayFile{Property: prop, Seed: x.meta.seed, Tier: tier, Mode: x.meta.mode, Violation: x.v, TraceHash: x.c.res.TraceHash, Log: x.c.res.Log, Faults: x.c.res.Faults, Plan: x.c.res.Plan}
 		// confirm in a fresh process
-		m := &minimiser{bin: bin, prop: prop, tier: tier, mode: x.meta.mode, wall: spec.Wall, maxprocs: spec.MaxProcs, tmp: tmp, class: k, seed: x.meta.seed, budget: 80}
+		mwall := 3*x.c.wall + 20*time.Second
+		if mwall > spec.Wall {
+			mwall = spec.Wall
+		}
+		m := &minimiser{bin: bin, prop: prop, tier: tier, mode: x.meta.mode, wall: mwall, maxprocs: spec.MaxProcs, tmp: tmp, class: k, seed: x.meta.seed, budget: 80}
 		var plan any
 		dec := json.NewDecoder(bytes.NewReader(x.c.res.Plan))
 		dec.UseNumber() // keep 64-bit integers of the plan exact
@@ -538,7 +549,7 @@ func check(prop, tier string, runsOverride int) int {
 				// final run of the minimised plan to capture its log
 				f := filepath.Join(tmp, "final.json")
 				os.WriteFile(f, b, 0o644)
-				c := runChild(bin, prop, x.meta.seed, f, tier, x.meta.mode, spec.Wall, spec.MaxProcs, tmp)
+				c := runChild(bin, prop, x.meta.seed, f, tier, x.meta.mode, mwall, spec.MaxProcs, tmp)
 				if c.res != nil && c.exit == 1 {
 					for _, v := range c.res.Violations {
 						if classKey(v) == k {
